@@ -92,12 +92,16 @@ def run(ctx):
                 "felt252: +-(P-1), around +-P/2} x seeded random (random bit length, random sign), plus the fixed "
                 "corner pairs (MIN,-1), (MAX,1), (+-7,+-3), top-up of result classes below 2 % per (operator,type). "
                 "distinct_nontrivial = distinct case tuples with at least one operand outside {0,1}, counted by the "
-                "harness; each case is evaluated as 2 const items (direct, through a const fn) and 4 runs (operands "
-                "passed at run time / literal in the body, const folding on / off).",
+                "harness; each case is evaluated as 2 const items (direct, through a const fn) and up to 5 runs "
+                "(operands passed at run time / literal in the body, each with const folding on / off; and, when "
+                "the const evaluated, a function returning the const item = materialisation of the value); the lf "
+                "leg has no const item and runs literal/run-time operand mixes with folding on / off.",
         "input_distribution": summary.get("distribution", {}),
         "cases": summary.get("cases_evaluated", 0),
         "const_items_evaluated_by_impl": summary.get("const_items", 0),
         "runs_by_impl": summary.get("runs", 0),
+        "functions_with_literal_operands": summary.get("functions_with_literal_operands", 0),
+        "of_which_smaller_with_const_folding": summary.get("of_which_smaller_with_const_folding", 0),
         "correspondence_disagreements": len(corr_bad),
         "oracle_failures": summary.get("oracle_failures", len(oracle_bad)),
         "oracle_failure_classes": sorted(by_fp),
